@@ -47,13 +47,15 @@ Rank5Ok ==
     LET h == Ev.words
         model == Rank5W(h) IN
     /\ Len(h) = 5
-    \* implementation-shaped stratum, observable for any words
+    \* implementation-shaped stratum: strict on card-or-blank words (what C13 observes), advisory elsewhere
     /\ Adv(Ev.or_bits = OrBits(h), "or_bits (not named by any property)")
-    /\ Ev.or_rank_bits = OrRankBits(h)
-    /\ Ev.and_bits = AndBits(h)
-    /\ Ev.dep_or = OrRankBits(h)
-    /\ Ev.flush = IsFlushW(h) /\ Ev.dep_flush = IsFlushW(h)
-    /\ Ev.wheel = IsWheelW(h)
+    /\ IF CardOrBlank(h) THEN
+            /\ Ev.or_rank_bits = OrRankBits(h) /\ Ev.dep_or = OrRankBits(h)
+            /\ Ev.and_bits = AndBits(h)
+            /\ Ev.flush = IsFlushW(h) /\ Ev.dep_flush = IsFlushW(h)
+            /\ Ev.wheel = IsWheelW(h)
+       ELSE Adv(/\ Ev.or_rank_bits = OrRankBits(h) /\ Ev.and_bits = AndBits(h) /\ Ev.flush = IsFlushW(h) /\ Ev.wheel = IsWheelW(h),
+                "bit observables / predicates on non-card words")
     /\ IF DistinctCards(h) THEN
             LET cs == CardSetOf(h)
                 v == ValueOfCards(cs)
